@@ -1,2 +1,2 @@
 # Properties whose check has been validated on the unchanged tree and is registered in MANIFEST.json.
-READY = ["C01", "C02", "C03", "C05", "C09", "C13", "C14", "C15", "C16", "C17", "C18", "C19", "C20", "C06", "C07", "C04", "C10", "C11", "C12"]
+READY = ["C01", "C02", "C03", "C05", "C09", "C13", "C14", "C15", "C16", "C17", "C18", "C19", "C20", "C06", "C07", "C04", "C10", "C11", "C12", "C08"]
